@@ -15,7 +15,7 @@ RULE = ('designs of strata S1, S1x, S2, S4 (quick: stratified core + seed-rotate
         'requested counts; states = (design, strategy, n) calls, transitions = sequences returned; non-trivial = avail >= 2.')
 ASSUMPTIONS = ['reference model vt/ref.py gives avail and the multiplicities (documented semantics)']
 BUDGET_S = {'quick': 60, 'thorough': 300}
-STRATA = ['S1', 'S1p', 'S1x', 'S2', 'S2s', 'S4']
+STRATA = ['S1', 'S1n', 'S1p', 'S1x', 'S2', 'S2s', 'S4']
 QUICK_CAPS = {'S1': 130, 'S1p': 150, 'S1x': 40, 'S2': 110, 'S4': 40}
 LIMIT = {'quick': 120, 'thorough': 600}
 GENS = ['sat', 'rnd', 'iter']
